@@ -9,7 +9,6 @@ semiring fold of fv.ref.markov (plain numpy).
 """
 import inspect
 import json
-import os
 
 import numpy as np
 
